@@ -153,19 +153,116 @@ def gen_rows(rng, big=False):
     return out
 
 
-def gen_case(rng, stream, big=False):
-    case = {"stream": stream, "rows": gen_rows(rng, big), "imap": rng.random() < 0.6,
-            "post": rng.random() < 0.7}
+def gen_cell(rng, tokens):
+    """How the segments cell of a word is handed to the library: a fresh list, a tuple, a
+    lingpy.basictypes.lists object, or a lists object that was built with other content and then
+    edited IN PLACE into these tokens (its cached .n is then stale)."""
+    r = rng.random()
+    if r < 0.45:
+        return "list"
+    if r < 0.55:
+        return "tuple"
+    if r < 0.65:
+        return rng.choice(["lists", "lists_str"])
+    seps = [i for i, t in enumerate(tokens) if t == "+"]
+    kinds = ["set", "del"] + (["insert", "insert", "extend", "extend"] if seps else [])
+    kind = rng.choice(kinds)
+    if kind in ("insert", "extend"):
+        return [kind, rng.choice(seps)]
+    i = rng.randrange(len(tokens))
+    return [kind, i, rng.choice(["x", "+", "a"])]
+
+
+def make_cell(tokens, spec):
+    """-> (the cell object for dict input, initial tokens for file input, edit to apply afterwards)."""
+    from lingpy.basictypes import lists
+    tokens = list(tokens)
+    if spec == "list":
+        return list(tokens), tokens, None
+    if spec == "tuple":
+        return tuple(tokens), tokens, None
+    if spec == "lists":
+        return lists(list(tokens)), tokens, None
+    if spec == "lists_str":
+        return lists(" ".join(tokens)), tokens, None
+    kind = spec[0]
+    if kind == "insert":
+        p = spec[1]
+        init, edit = tokens[:p] + tokens[p + 1:], ("insert", p, "+")
+    elif kind == "extend":
+        j = spec[1]
+        init, edit = tokens[:j], ("extend", " ".join(tokens[j + 1:]))
+    elif kind == "set":
+        i, other = spec[1], spec[2]
+        init, edit = tokens[:i] + [other] + tokens[i + 1:], ("set", i, tokens[i])
+    else:
+        i, extra = spec[1], spec[2]
+        init, edit = tokens[:i] + [extra] + tokens[i:], ("del", i)
+    if not init or (kind == "extend" and not tokens[spec[1] + 1:]):
+        return lists(list(tokens)), tokens, None
+    x = lists(list(init))
+    apply_edit(x, edit)
+    if list(x) != tokens:
+        return lists(list(tokens)), tokens, None
+    return x, init, edit
+
+
+def apply_edit(x, edit):
+    if edit[0] == "insert":
+        x.insert(edit[1], edit[2])
+    elif edit[0] == "extend":
+        x.extend(edit[1])
+    elif edit[0] == "set":
+        x[edit[1]] = edit[2]
+    else:
+        del x[edit[1]]
+
+
+def gen_call(rng, stream):
+    spec = {"imap": rng.random() < 0.6, "post": rng.random() < 0.7}
     if stream == "stub":
-        case["method"] = rng.choice(METHODS_STUB)
-        case["thr"] = rng.choice(THR_STUB)
+        spec["method"] = rng.choice(METHODS_STUB)
+        spec["thr"] = rng.choice(THR_STUB)
+    else:
+        spec["method"] = rng.choice(METHODS_REAL)
+        spec["thr"] = rng.choice(THR_REAL)
+    return spec
+
+
+def gen_pre(rng, case):
+    """Earlier partial_cluster calls on the same object: copies of the last call with one or two
+    keywords varied (or none), so that state carried from one call to the next shows."""
+    pre = []
+    for _ in range(rng.choice([1, 1, 1, 2])):
+        spec = {k: case[k] for k in ("imap", "post", "method", "thr")}
+        spec["stream"] = case["stream"]
+        for what in rng.sample(["post", "post", "imap", "thr", "method", "none", "omit"], rng.choice([1, 1, 2])):
+            if what in ("post", "imap"):
+                spec[what] = not spec[what]
+            elif what == "thr":
+                spec["thr"] = rng.choice(THR_STUB if case["stream"] == "stub" else THR_REAL)
+            elif what == "method":
+                spec["method"] = rng.choice(METHODS_STUB if case["stream"] == "stub" else METHODS_REAL)
+        omit = [n for n in gen_omit(rng) if n not in ("ref", "idtype")] if rng.random() < 0.4 else []
+        apply_omit(spec, omit)
+        del spec["stream"]
+        pre.append(spec)
+    return pre
+
+
+def gen_case(rng, stream, big=False):
+    case = {"stream": stream, "rows": gen_rows(rng, big)}
+    case.update(gen_call(rng, stream))
+    if stream == "stub":
         case["stub"] = {"seed": rng.randrange(10 ** 6), "grid": rng.choice(sorted(GRIDS)),
                         "zerodiv": rng.choice([0, 0, 0, 0, 0, 30, 150])}
     else:
-        case["method"] = rng.choice(METHODS_REAL)
-        case["thr"] = rng.choice(THR_REAL)
         case["stub"] = None
-    return apply_omit(case, gen_omit(rng))
+    apply_omit(case, gen_omit(rng))
+    case["pre"] = gen_pre(rng, case) if rng.random() < 0.35 else []
+    case["input"] = "file" if rng.random() < 0.3 else "dict"
+    case["cells"] = [gen_cell(rng, t) for _, _, t in case["rows"]] if rng.random() < 0.5 else None
+    return case
 
 
 def exhaustive_cases():
@@ -177,6 +274,7 @@ def exhaustive_cases():
         words.append(list(m1))
         for m2 in ms:
             words.append(m1 + ["+"] + m2)
+    n = 0
     for wa in words:
         for wb in words:
             for seed in (1, 2):
@@ -184,10 +282,15 @@ def exhaustive_cases():
                     for imap in (False, True, None):            # None: keyword omitted
                         for post in (False, True, None):
                             omit = [n for n, v in (("imap_mode", imap), ("post_processing", post)) if v is None]
-                            yield apply_omit(
+                            case = apply_omit(
                                 {"stream": "stub", "rows": [("L0", "c0", wa), ("L1", "c0", wb), ("L2", "c0", wa)],
                                  "imap": imap, "post": post, "method": meth, "thr": F(1, 2),
                                  "stub": {"seed": seed, "grid": "coarse", "zerodiv": 0}}, omit)
+                            # every second pattern is preceded by the same call with post-processing flipped
+                            n += 1
+                            case["pre"] = [dict(imap=case["imap"], post=not case["post"], method=meth,
+                                                thr=F(1, 2), omit=[])] if n % 2 else []
+                            yield case
 
 
 # ---------------------------------------------------------------------------------------
@@ -246,24 +349,66 @@ def colmean_safe(raw, M, x, y):
     return (s1 <= s2) == (e1 <= e2)
 
 
+def load_wordlist(case, columns, rows, subdir="tmp-C16"):
+    """Build the Partial object of a case: from a dictionary, or from a TSV file that is written,
+    loaded with Wordlist and removed again.  rows: list of lists of cell values (dict input) /
+    strings (file input) in the order of `columns`."""
+    import os
+    import shutil
+    import tempfile
+    from lingpy import Wordlist
+    from lingpy.compare import partial as P
+    from ..lib import env
+    if case.get("input", "dict") == "file":
+        base = os.path.join(env.BUILD, subdir)
+        os.makedirs(base, exist_ok=True)
+        d = tempfile.mkdtemp(dir=base)
+        try:
+            fn = os.path.join(d, "wl.tsv")
+            with open(fn, "w", encoding="utf8") as f:
+                f.write("\t".join(["ID"] + [c.upper() for c in columns]) + "\n")
+                for i, row in enumerate(rows):
+                    f.write("\t".join([str(i + 1)] + list(row)) + "\n")
+            return Wordlist(fn)
+        finally:
+            shutil.rmtree(d, ignore_errors=True)
+    D = {0: list(columns)}
+    for i, row in enumerate(rows):
+        D[i + 1] = list(row)
+    return D
+
+
 def run_impl(case):
     import logging
     import lingpy
     from lingpy.compare import partial as P
     from lingpy.algorithm import clustering as CL
+    from lingpy.basictypes import lists
     from tqdm import tqdm
 
-    D = {0: ["doculect", "concept", "tokens"]}
-    for i, (l, c, t) in enumerate(case["rows"]):
-        D[i + 1] = [l, c, list(t)]
     stub = case["stub"]
-    omit = case.get("omit", [])
-    pid = DOC_DEFAULTS["ref"] if "ref" in omit else "pid"
+    from_file = case.get("input", "dict") == "file"
+    cells = case.get("cells") or ["list"] * len(case["rows"])
     saved_pb, saved_calign, saved_fc = lingpy.util.pb, P.calign, CL.flat_cluster
     lingpy.util.pb = functools.partial(tqdm, leave=False, disable=True)
     logging.disable(logging.CRITICAL)
     try:
-        wl = P.Partial(D, check=False)
+        made = [make_cell(t, spec) for (_, _, t), spec in zip(case["rows"], cells)]
+        if from_file:
+            src = load_wordlist(case, ["doculect", "concept", "tokens"],
+                                [[l, c, " ".join(m[1])] for (l, c, _), m in zip(case["rows"], made)])
+            for i, m in enumerate(made):         # edit the loaded cells in place
+                if m[2] is not None:
+                    if not isinstance(src[i + 1, "tokens"], lists):
+                        raise AssertionError("harness: a tokens cell read from a file is not a lists object")
+                    apply_edit(src[i + 1, "tokens"], m[2])
+        else:
+            src = load_wordlist(case, ["doculect", "concept", "tokens"],
+                                [[l, c, m[0]] for (l, c, _), m in zip(case["rows"], made)])
+        wl = P.Partial(src, check=False)
+        for i, (_, _, t) in enumerate(case["rows"]):
+            if list(wl[i + 1, "tokens"]) != list(t):
+                raise AssertionError("harness: the segments of word %d are not the intended ones" % (i + 1))
         concepts = sorted(wl.rows)
         if concepts != list(wl.rows):
             raise AssertionError("harness: concept order")
@@ -331,64 +476,78 @@ def run_impl(case):
                 mats.append(None)
             return r
 
+        def one_call(spec, ref):
+            """One partial_cluster call on wl -> its observed result."""
+            omit = spec.get("omit", [])
+            col = DOC_DEFAULTS["ref"] if "ref" in omit else ref
+            del mats[:]
+            status = 0
+            try:
+                kwargs = dict(method="sca", threshold=float(spec["thr"]), cluster_method=spec["method"],
+                              imap_mode=spec["imap"], post_processing=spec["post"], ref=ref)
+                for name in omit:
+                    kwargs.pop(name, None)       # rely on the library's default
+                wl.partial_cluster(**kwargs)
+            except ZeroDivisionError:
+                status = 1
+            except AttributeError as e:
+                # the handler of ZeroDivisionError in the imap_mode=False construction reads self._tokens
+                if "_tokens" not in str(e) or not any(v == "Z" for v in table.values()):
+                    raise
+                status = 2
+            r = {"status": status, "out": [], "cmp": 2, "collisions": 0, "tie_excluded": False, "col": col}
+            if status:
+                return r
+            out = [[(k, [int(x) for x in wl[k, col]]) for k, _ in ws] for ws in view]
+            r["out"] = out
+            # which comparison of ids is justified (see module docstring)
+            collisions, unsafe = 0, False
+            for ci, ws in enumerate(out):
+                rec = mats[ci] if ci < len(mats) else None
+                words = [k for k, ids in ws for _ in ids]
+                if rec is None or len(rec[0]) != len(words):
+                    continue
+                raw, M, cl = rec
+                n = len(M)
+                if stub is None and spec["method"] == "upgma" and not upgma_safe(raw, M, float(spec["thr"])):
+                    unsafe = True
+                if spec["post"]:
+                    for x in range(n):
+                        for y in range(x + 1, n):
+                            if words[x] == words[y] and cl.get(x) == cl.get(y):
+                                collisions += 1
+                                if stub is None and not colmean_safe(raw, M, x, y):
+                                    unsafe = True
+            r["collisions"] = collisions
+            r["tie_excluded"] = unsafe
+            r["cmp"] = 2 if stub is not None or not unsafe else 0
+            return r
+
         P.calign = Shim()
         CL.flat_cluster = fc
-        status = 0
         try:
-            kwargs = dict(method="sca", threshold=float(case["thr"]), cluster_method=case["method"],
-                          imap_mode=case["imap"], post_processing=case["post"], ref="pid")
-            for name in omit:
-                kwargs.pop(name, None)       # rely on the library's default
-            wl.partial_cluster(**kwargs)
-        except ZeroDivisionError:
-            status = 1
-        except AttributeError as e:
-            # the handler of ZeroDivisionError in the imap_mode=False construction reads self._tokens
-            if "_tokens" not in str(e) or not any(v == "Z" for v in table.values()):
-                raise
-            status = 2
+            pre = [one_call(spec, "pre%d" % i) for i, spec in enumerate(case.get("pre") or [])]
+            main = one_call(case, "pid")
         finally:
             P.calign = saved_calign
             CL.flat_cluster = saved_fc
-        res = {"view": view, "status": status, "calls": len(table),
-               "table": [(list(a), list(b), d if d == "Z" else str(F(d))) for (a, b), d in table.items()]}
-        if status:
-            res.update(out=[], order=[], strict=[], loose=[], cmp=2, collisions=0, tie_excluded=False)
+        res = dict(main)
+        res.update(view=view, pre=pre, calls=len(table),
+                   table=[(list(a), list(b), d if d == "Z" else str(F(d))) for (a, b), d in table.items()])
+        res["tie_excluded"] = main["tie_excluded"] or any(p["tie_excluded"] for p in pre)
+        res["collisions"] = main["collisions"] + sum(p["collisions"] for p in pre)
+        if main["status"]:
+            res.update(order=[], strict=[], loose=[])
             return res
-        out = [[(k, [int(x) for x in wl[k, pid]]) for k, _ in ws] for ws in view]
-        if "idtype" in omit:
+        pid = main["col"]
+        if "idtype" in case.get("omit", []):
             wl.add_cognate_ids(pid, "strictid")
         else:
             wl.add_cognate_ids(pid, "strictid", idtype="strict")
         wl.add_cognate_ids(pid, "looseid", idtype="loose")
-        res["out"] = out
         res["order"] = [int(k) for k in wl]
         res["strict"] = [int(wl[k, "strictid"]) for k in wl]
         res["loose"] = [[int(wl[k, "looseid"]) for k, _ in ws] for ws in view]
-        # which comparison of ids is justified (see module docstring)
-        collisions, unsafe = 0, False
-        for ci, ws in enumerate(out):
-            rec = mats[ci] if ci < len(mats) else None
-            words = [k for k, ids in ws for _ in ids]
-            if rec is None or len(rec[0]) != len(words):
-                continue
-            raw, M, cl = rec
-            n = len(M)
-            if stub is None and case["method"] == "upgma" and not upgma_safe(raw, M, float(case["thr"])):
-                unsafe = True
-            if case["post"]:
-                for x in range(n):
-                    for y in range(x + 1, n):
-                        if words[x] == words[y] and cl.get(x) == cl.get(y):
-                            collisions += 1
-                            if stub is None and not colmean_safe(raw, M, x, y):
-                                unsafe = True
-        res["collisions"] = collisions
-        res["tie_excluded"] = unsafe
-        if stub is not None:
-            res["cmp"] = 2
-        else:
-            res["cmp"] = 0 if unsafe else 2
         return res
     finally:
         lingpy.util.pb = saved_pb
@@ -402,14 +561,10 @@ def pids_lit(out):
     return L.lst([L.lst([L.pair(L.nat(k), L.natlist(ids)) for k, ids in ws]) for ws in out])
 
 
-def thr_fraction(case):
+def cfg_lit(spec):
     # stub stream: the decimal the harness wrote; real stream: the float the code compares with
-    return F(case["thr"])
-
-
-def cfg_lit(case):
-    return L.record("config", [L.b(case["imap"]), L.b(case["method"] == "ward"), COQ_METH[case["method"]],
-                               L.q(thr_fraction(case)), L.b(case["post"])])
+    return L.record("config", [L.b(spec["imap"]), L.b(spec["method"] == "ward"), COQ_METH[spec["method"]],
+                               L.q(F(spec["thr"])), L.b(spec["post"])])
 
 
 def ores_lit(d):
@@ -425,22 +580,29 @@ def table_lit(table):
     return L.lst([L.pair(L.pair(L.zlist(a), L.zlist(b)), ores_lit(d)) for a, b, d in table])
 
 
+def call_lit(spec, r):
+    return L.record("call", [cfg_lit(spec), L.nat(r["cmp"]), L.nat(r["status"]), pids_lit(r["out"])])
+
+
 def render(case, res):
     return L.record("partial_case", [
-        cfg_lit(case), wl_lit(res["view"]), table_lit(res["table"]),
-        L.nat(res["cmp"]), L.nat(res["status"]), pids_lit(res["out"]),
+        wl_lit(res["view"]), table_lit(res["table"]),
+        L.lst([call_lit(s, r) for s, r in zip(case.get("pre") or [], res["pre"])]),
+        call_lit(case, res),
         L.natlist(res["order"]), L.natlist(res["strict"]),
         L.lst([L.natlist(r) for r in res["loose"]]),
     ])
 
 
-BITS = {0: "correspondence: partial ids of the model differ from the implementation's (or raised/returned differs)",
+BITS = {0: "correspondence: partial ids of the model differ from the implementation's (or raised/returned differs) "
+           "in some call of the history",
         1: "one id per morpheme: a word is missing or has a number of ids different from its number of morphemes",
         2: "an identifier is shared between two concepts",
         3: "post-processing on, but two morphemes of one word have the same identifier",
         4: "correspondence: strict/loose ids of the model differ from add_cognate_ids",
         5: "strict ids are not equal exactly for identical id sequences",
-        6: "loose ids are not the connected components of 'shares a partial id' per concept (or shared between concepts)"}
+        6: "loose ids are not the connected components of 'shares a partial id' per concept (or shared between concepts)",
+        7: "a source id cell, as loaded, is not the list of integers that was written"}
 
 
 def nontrivial(case, res):
@@ -455,32 +617,66 @@ def nontrivial(case, res):
     return False
 
 
+def _thr_out(t):
+    return str(t) if isinstance(t, F) else t
+
+
+def _thr_in(t):
+    return F(t) if isinstance(t, str) else t
+
+
 def jsonable(case, res=None):
     c = dict(case)
     c["rows"] = [[l, co, list(t)] for l, co, t in case["rows"]]
-    c["thr"] = str(case["thr"]) if isinstance(case["thr"], F) else case["thr"]
+    c["thr"] = _thr_out(case["thr"])
+    c["pre"] = [dict(s, thr=_thr_out(s["thr"])) for s in case.get("pre") or []]
     if res is not None:
         c["impl"] = {k: res[k] for k in ("status", "out", "order", "strict", "loose", "cmp", "collisions",
                                          "tie_excluded", "calls")}
+        c["impl"]["pre"] = [{k: r[k] for k in ("status", "out", "cmp")} for r in res["pre"]]
     return c
 
 
 def from_json(c):
     case = dict(c)
     case["rows"] = [(l, co, list(t)) for l, co, t in c["rows"]]
-    if isinstance(c["thr"], str):
-        case["thr"] = F(c["thr"])
+    case["thr"] = _thr_in(c["thr"])
+    case["pre"] = [dict(s, thr=_thr_in(s["thr"])) for s in c.get("pre") or []]
+    case.setdefault("omit", [])
+    case.setdefault("input", "dict")
+    case.setdefault("cells", None)
     case.pop("impl", None)
     return case
 
 
 def shrink(case):
     rows = case["rows"]
+    cells = case.get("cells")
+    pre = case.get("pre") or []
+    for i in range(len(pre)):
+        c = dict(case)
+        c["pre"] = pre[:i] + pre[i + 1:]
+        yield c
     if len(rows) > 1:
         for i in range(len(rows)):
             c = dict(case)
             c["rows"] = rows[:i] + rows[i + 1:]
+            if cells:
+                c["cells"] = cells[:i] + cells[i + 1:]
             yield c
+    if cells:
+        c = dict(case)
+        c["cells"] = None
+        yield c
+        for i, spec in enumerate(cells):
+            if spec != "list":
+                c = dict(case)
+                c["cells"] = cells[:i] + ["list"] + cells[i + 1:]
+                yield c
+    if case.get("input") == "file":
+        c = dict(case)
+        c["input"] = "dict"
+        yield c
     for i, (l, co, t) in enumerate(rows):
         if "+" in t:
             j = len(t) - 1 - t[::-1].index("+")
@@ -488,6 +684,8 @@ def shrink(case):
                 if nt:
                     c = dict(case)
                     c["rows"] = rows[:i] + [(l, co, nt)] + rows[i + 1:]
+                    if cells:
+                        c["cells"] = cells[:i] + ["list"] + cells[i + 1:]
                     yield c
     if case["stub"] and case["stub"]["zerodiv"]:
         c = dict(case)
@@ -503,10 +701,16 @@ def classify(case, res):
     nm = max((sum(len(l) for _, l in ws) for ws in res["out"]), default=0)
     tags = ["stream=" + case["stream"], "method=" + case["method"], "imap=%s" % case["imap"],
             "post=%s" % case["post"], "status=%d" % res["status"], "cmp=%d" % res["cmp"],
-            "max_morphemes_per_concept=%d" % nm]
+            "max_morphemes_per_concept=%d" % nm, "input=" + case.get("input", "dict"),
+            "history_length=%d" % (1 + len(case.get("pre") or []))]
     tags += ["omitted=" + n for n in case.get("omit", [])]
     if not case.get("omit"):
         tags.append("all_keywords_passed")
+    for spec in case.get("cells") or []:
+        tags.append("cell=" + (spec if isinstance(spec, str) else "lists_edited_in_place:" + spec[0]))
+    for s in case.get("pre") or []:
+        diff = [k for k in ("imap", "post", "method", "thr") if s[k] != case[k]]
+        tags.append("earlier_call_differs_in=" + ("+".join(diff) or "nothing"))
     if res["collisions"]:
         tags.append("same_word_collision")
     if res["tie_excluded"]:
@@ -543,7 +747,31 @@ def model_expr(case, res, rundir):
 
 
 # ---------------------------------------------------------------------------------------
-# add_cognate_ids on arbitrary source id lists
+# add_cognate_ids on arbitrary source id lists (dictionary cells, or cells read from a file)
+
+SRC_COLUMNS = ["cogids", "partial_ids", "pcogsets"]      # list-of-integer columns of wordlist.rc
+SRC_ALIASES = {"cogids": ["COGIDS"], "partial_ids": ["PARTIALIDS", "PARTIAL_IDS", "PARTIALID"],
+               "pcogsets": ["PARTIAL_COGNATE_SETS", "PCOGSET", "PCS"]}
+
+
+def blanks(rng, ids):
+    """The ids as a file cell: single blanks, or irregular ones (doubled, leading, trailing)."""
+    if not ids:
+        return rng.choice(["", "", " "])
+    kind = rng.choice(["regular", "regular", "double", "triple", "lead", "trail", "mixed"])
+    if kind == "regular":
+        return " ".join(map(str, ids))
+    if kind in ("double", "triple"):
+        return ("  " if kind == "double" else "   ").join(map(str, ids))
+    if kind == "lead":
+        return " " + " ".join(map(str, ids))
+    if kind == "trail":
+        return " ".join(map(str, ids)) + " "
+    out = str(ids[0])
+    for x in ids[1:]:
+        out += rng.choice([" ", "  ", "   "]) + str(x)
+    return out
+
 
 def d_gen_case(rng, big=False):
     nconc = rng.choice([1, 2, 2, 3])
@@ -563,7 +791,13 @@ def d_gen_case(rng, big=False):
     if not rows:
         rows.append(("L0", "c0", [1]))
     rng.shuffle(rows)
-    return {"stream": "derive", "rows": rows, "omit": ["idtype"] if rng.random() < 0.3 else []}
+    case = {"stream": "derive", "rows": rows, "omit": ["idtype"] if rng.random() < 0.3 else [],
+            "input": "file" if rng.random() < 0.5 else "dict"}
+    if case["input"] == "file":
+        case["column"] = rng.choice(SRC_COLUMNS)
+        case["header"] = rng.choice(SRC_ALIASES[case["column"]])
+        case["cellstr"] = [blanks(rng, ids) for _, _, ids in rows]
+    return case
 
 
 def d_run_impl(case):
@@ -571,26 +805,39 @@ def d_run_impl(case):
     import lingpy
     from lingpy.compare import partial as P
     from tqdm import tqdm
-    D = {0: ["doculect", "concept", "tokens", "src"]}
-    for i, (l, c, ids) in enumerate(case["rows"]):
-        D[i + 1] = [l, c, ["t", "a"], list(ids)]
     saved_pb = lingpy.util.pb
     lingpy.util.pb = functools.partial(tqdm, leave=False, disable=True)
     logging.disable(logging.CRITICAL)
     try:
-        wl = P.Partial(D, check=False)
-        if "idtype" in case.get("omit", []):
-            wl.add_cognate_ids("src", "strictid")
+        if case.get("input", "dict") == "file":
+            col = case["column"]
+            cellstr = case.get("cellstr") or [" ".join(map(str, ids)) for _, _, ids in case["rows"]]
+            src_obj = load_wordlist(case, ["doculect", "concept", "tokens", case["header"]],
+                                    [[l, c, "t a", s] for (l, c, _), s in zip(case["rows"], cellstr)])
         else:
-            wl.add_cognate_ids("src", "strictid", idtype="strict")
-        wl.add_cognate_ids("src", "looseid", idtype="loose")
+            col = "src"
+            src_obj = load_wordlist(case, ["doculect", "concept", "tokens", "src"],
+                                    [[l, c, ["t", "a"], list(ids)] for l, c, ids in case["rows"]])
+        wl = P.Partial(src_obj, check=False)
+        loaded_ok = True
+        for i, (_, _, ids) in enumerate(case["rows"]):
+            cell = wl[i + 1, col]
+            if not (isinstance(cell, list) and len(cell) == len(ids)
+                    and all(isinstance(x, int) and x == y for x, y in zip(cell, ids))):
+                loaded_ok = False
+        if "idtype" in case.get("omit", []):
+            wl.add_cognate_ids(col, "strictid")
+        else:
+            wl.add_cognate_ids(col, "strictid", idtype="strict")
+        wl.add_cognate_ids(col, "looseid", idtype="loose")
         src, loose = [], []
         for c in wl.rows:
             ks = wl.get_list(row=c, flat=True)
-            src.append([(int(k), [int(x) for x in wl[k, "src"]]) for k in ks])
+            # the ids as the caller wrote them (not read back from the object)
+            src.append([(int(k), [int(x) for x in case["rows"][int(k) - 1][2]]) for k in ks])
             loose.append([int(wl[k, "looseid"]) for k in ks])
         return {"src": src, "order": [int(k) for k in wl], "strict": [int(wl[k, "strictid"]) for k in wl],
-                "loose": loose}
+                "loose": loose, "loaded_ok": loaded_ok}
     finally:
         lingpy.util.pb = saved_pb
         logging.disable(logging.NOTSET)
@@ -598,7 +845,7 @@ def d_run_impl(case):
 
 def d_render(case, res):
     return L.record("derive_case", [pids_lit(res["src"]), L.natlist(res["order"]), L.natlist(res["strict"]),
-                                    L.lst([L.natlist(r) for r in res["loose"]])])
+                                    L.lst([L.natlist(r) for r in res["loose"]]), L.b(res["loaded_ok"])])
 
 
 def d_nontrivial(case, res):
@@ -617,26 +864,46 @@ def d_jsonable(case, res=None):
 def d_from_json(c):
     case = dict(c)
     case["rows"] = [(l, co, list(t)) for l, co, t in c["rows"]]
+    case.setdefault("omit", [])
+    case.setdefault("input", "dict")
     case.pop("impl", None)
     return case
 
 
 def d_shrink(case):
     rows = case["rows"]
+    cs = case.get("cellstr")
     if len(rows) > 1:
         for i in range(len(rows)):
             c = dict(case)
             c["rows"] = rows[:i] + rows[i + 1:]
+            if cs:
+                c["cellstr"] = cs[:i] + cs[i + 1:]
             yield c
+    if cs:
+        for i, (l, co, t) in enumerate(rows):
+            reg = " ".join(map(str, t))
+            if cs[i] != reg:
+                c = dict(case)
+                c["cellstr"] = cs[:i] + [reg] + cs[i + 1:]
+                yield c
     for i, (l, co, t) in enumerate(rows):
         for j in range(len(t)):
             c = dict(case)
-            c["rows"] = rows[:i] + [(l, co, t[:j] + t[j + 1:])] + rows[i + 1:]
+            nt = t[:j] + t[j + 1:]
+            c["rows"] = rows[:i] + [(l, co, nt)] + rows[i + 1:]
+            if cs:
+                c["cellstr"] = cs[:i] + [" ".join(map(str, nt))] + cs[i + 1:]
             yield c
 
 
 def d_classify(case, res):
-    tags = ["stream=derive", "words=%d" % len(case["rows"])] + ["omitted=" + n for n in case.get("omit", [])]
+    tags = ["stream=derive", "words=%d" % len(case["rows"]), "input=" + case.get("input", "dict")]
+    tags += ["omitted=" + n for n in case.get("omit", [])]
+    if case.get("input") == "file":
+        tags.append("column=" + case["header"])
+        if any(s != " ".join(map(str, t)) for s, (_, _, t) in zip(case.get("cellstr") or [], case["rows"])):
+            tags.append("irregular_blanks_in_id_cell")
     if any(not t for _, _, t in case["rows"]):
         tags.append("empty_id_list")
     ids = {}
